@@ -14,8 +14,11 @@ TypeLevelOk   == {"ghosts", "where_clause", "child_parents"}
 TypeMisplaced == {"parent", "literal", "pattern", "type_hint"}
 \* near-misses the documentation anticipates ("Perhaps you meant ...")
 TypeMisnamed  == {"children", "ghost", "child"}
-MemberOk      == {"map", "ghost_nd", "ghost_d", "ghost_owned_d", "ghost_ref_d", "child", "parent0", "parentp", "parentp_idx", "parentp_untyped", "parentp_untyped2", "parentp_untyped_deep",
+MemberOk      == {"map", "map_bare", "map_action", "ghost_nd", "ghost_d", "ghost_owned_d", "ghost_ref_d", "child", "parent0", "parentp", "parentp_idx", "parentp_untyped", "parentp_untyped2", "parentp_untyped_deep",
                   "literal", "pattern", "type_hint"}
+\* map: #[map(name)] -- always with the counterpart member's name; map_bare: #[map] (neither name nor expression); map_action: #[map(~.clone())]
+\* (an expression without a name): the last two matter only where a name is needed (class 9)
+MapItems == {"map", "map_bare", "map_action"}
 \* parentp: #[parent(b1, [map(q2)] b2)] -- a parameterised parent whose child fields are named (no rule broken);
 \* parentp_idx: #[parent(0)] -- a parameterised parent whose child field is given by index and carries no name;
 \* parentp_untyped: #[parent(b1, [parent(c1)] inner)] -- a nested parent without its type;
@@ -87,15 +90,24 @@ ChildNoParents(in) ==
 
 \* class 9: tuple struct mapped to a named counterpart (`as {}`) needs a member name on every mapped member, for every conversion.
 \* A member is excused when it is a ghost or a parent for that counterpart.
-NamedFor(in, i, cp) == \E x \in RecognisedM(in, i) : x.n = "map" /\ x.cp \in {"-", cp}
+\* the mapping instruction that applies to member i for counterpart cp: a dedicated one before a default one, each in writing order
+EffMapItem(in, i, cp) ==
+  LET s == in.ms[i]
+      ok(j) == s[j] \in RecognisedM(in, i) /\ s[j].n \in MapItems
+      d == First(LAMBDA j : ok(j) /\ s[j].cp = cp, Len(s))
+      f == First(LAMBDA j : ok(j) /\ s[j].cp = "-", Len(s)) IN
+  IF d # 0 THEN s[d].n ELSE IF f # 0 THEN s[f].n ELSE "-"
+\* does that instruction say which member of a NAMED counterpart a positional member corresponds to?  A From conversion can do with an
+\* expression alone; Into / into_existing need the name.
+NameOk(item, k) == item = "map" \/ (item = "map_action" /\ IsFrom(k))
 \* a member is excused for conversion kind k when it is a ghost for k (ghost_owned / ghost_ref apply to one ownership only) or a parent
 ExcusedFor(in, i, cp, k) == \E x \in RecognisedM(in, i) : x.cp \in {"-", cp} /\ (IsParentItem(x.n) \/ k \in GhostKinds(x.n))
 TupleNamed(in) ==
   IF in.dt # "struct" \/ in.shape # "tuple" THEN {} ELSE
   {[c |-> "tuple_named_mismatch", a |-> ToString(p[1] - 1)] :
      p \in {q \in (DOMAIN in.ms) \X (DOMAIN in.traits) :
-              in.traits[q[2]].hint = "struct" /\ ~NamedFor(in, q[1], in.traits[q[2]].cp)
-              /\ \E k \in Appl(in.traits[q[2]].n) : ~ExcusedFor(in, q[1], in.traits[q[2]].cp, k)}}
+              in.traits[q[2]].hint = "struct"
+              /\ \E k \in Appl(in.traits[q[2]].n) : ~ExcusedFor(in, q[1], in.traits[q[2]].cp, k) /\ ~NameOk(EffMapItem(in, q[1], in.traits[q[2]].cp), k)}}
 \* class 9 for parameterised parents: a child field given by index has no name to go by in a named counterpart (any conversion that is not a From,
 \* into_existing included)
 ParentFieldUnnamed(in) ==
